@@ -8,7 +8,7 @@
    Block reads return the slots last written (crash safety / corruption: C22, C23).
    DEFINITIONS ONLY (the lemmas are in HashmapProofs.v). *)
 From Coq Require Import List ZArith NArith Bool.
-From SopVerif Require Import Lib.Bytes Gen.Consts Gen.HandleCodec Layout.
+From SopVerif Require Import Lib.Bytes Gen.Consts Gen.HandleCodec Gen.HashmapConsts Layout.
 Import ListNotations.
 
 Definition cell := handle.
@@ -42,8 +42,9 @@ Definition h_is_empty (h : handle) : bool :=
   uuid_eqb (PhysicalIDB h) nil_uuid && Z.eqb (Version h) 0 && Z.eqb (WorkInProgressTimestamp h) 0.
 
 Definition nslots : nat := Z.to_nat handlesPerBlock.
-(* findOneFileRegion: "if i > 1000 { return ... reached the maximum count of segment files }" *)
-Definition maxSegments : nat := 1000.
+(* findOneFileRegion: "if i > 1000 { return ... reached the maximum count of segment files }";
+   the literal is read from the source on every run (tools/gen/hashmap.go -> Gen/HashmapConsts.v) *)
+Definition maxSegments : nat := Z.to_nat maxSegmentFiles.
 
 Definition empty_block : block := repeat zero_handle nslots.
 Definition empty_segment (hm : Z) : segment := repeat empty_block (Z.to_nat hm).
